@@ -4,7 +4,7 @@ Explicit-state search over *histories of compilations* on the real process-wide 
 
 * Alphabet: the designs of verif/gen/c11_designs.py (accepted ones and rejected ones, one per failure stage).
 * Golden outcome of a letter = its compilation in a fresh interpreter with an empty history.
-* History tree: every sequence of <= DEPTH letters (quick 3, thorough 4) is executed in one interpreter; the
+* History tree: every sequence of <= DEPTH letters (quick 3; thorough 4 in mode reuse, 3 in mode fresh) is executed in one interpreter; the
   tree is explored depth-first with os.fork() as the state snapshot (verif/gen/c11_tree.py, a stand-alone
   script started in fresh interpreters with PYTHONHASHSEED=0; first-level/second-level subtrees are
   distributed over pmap workers).  Two modes: "reuse" (same class object compiled again) and "fresh"
@@ -26,7 +26,7 @@ import shutil
 import subprocess
 import tempfile
 
-from ..core import Run, pmap
+from ..core import Run, pmap, chunked
 from ..gen import c11_designs as D
 
 LEVEL = "model_checking"
@@ -80,9 +80,10 @@ def norm_sig(sig: str) -> str:
     return _HEX.sub("0x?", sig)[:110]
 
 
-def hist_key(history, victim, sig):
-    """canonical identity of a failing input: the (minimal) history, the victim and how it deviates"""
-    return "hist/" + ">".join(history) + "=>" + victim + "#" + norm_sig(sig)
+def hist_key(history, victim, kind):
+    """canonical identity of a failing input: the (minimal) history, the victim and the kind of deviation
+    (altered | prevented | accepted_after | other_exception)"""
+    return "hist/" + ">".join(history) + "=>" + victim + "#" + kind
 
 
 def proper_subsequences(h):
@@ -156,29 +157,41 @@ def check_variants(run, moddir, letters, order, golden):
     run.count("fresh_variant_interpreters", len(tasks))
 
 
-def tree_tasks(moddir, letters, order, golden, depth, plen, modes):
-    for mode in modes:
-        for prefix in itertools.product(order, repeat=plen):
+def write_golden(moddir, golden):
+    path = os.path.join(moddir, "golden.json")
+    with open(path, "w") as f:
+        json.dump(golden, f)
+    return path
+
+
+def tree_tasks(moddir, letters, order, golden, depths, plen):
+    gfile = write_golden(moddir, golden)
+    for mode, depth in depths.items():
+        for prefix in itertools.product(order, repeat=min(plen, depth)):
             spec = base_spec(moddir, letters, order)
-            spec.update(mode=mode, prefix=list(prefix), depth=depth, golden=golden)
+            spec.update(mode=mode, prefix=list(prefix), depth=depth, golden_file=gfile)
             yield {"kind": "tree", "mode": mode, "prefix": list(prefix), "spec": spec, "hashseed": TREE_HASHSEED}
 
 
-def check_tree(run, moddir, letters, order, golden):
-    depth = 4 if run.thorough else 3
-    plen = 2 if run.thorough else 1
-    plen = min(plen, depth)
-    tasks = list(tree_tasks(moddir, letters, order, golden, depth, plen, MODES))
-    devs = {m: {} for m in MODES}  # mode -> {(history tuple, victim, sig): record}
+def tree_depths(run):
+    """complete history length per mode"""
+    return {"reuse": 4, "fresh": 3} if run.thorough else {"reuse": 3, "fresh": 3}
+
+
+def collect(run, tasks, devs, label):
+    """run driver tasks, accumulate counters and the deviation tables; returns the number of counted nodes"""
+    nodes = 0
     for kind, r in pmap(work, tasks, seed=run.seed):
         if kind != "ok":
-            run.tool_error(f"tree task failed: {r[-600:]}")
+            run.tool_error(f"{label} task failed: {r[-600:]}")
             continue
         res, t = r["res"], r["task"]
         for e in res["errors"][:3]:
-            run.tool_error(f"tree {t['mode']} {t['prefix']}: {e}")
+            run.tool_error(f"{label} {t['mode']} {t['prefix']}: {e}")
+        nodes += res["nodes"]
         run.count("states", res["nodes"])
         run.count("transitions", res["nodes"])
+        run.count(label + "_nodes", res["nodes"])
         run.count("traces_validated_against_impl", res["compared"])
         run.count("compilations_accepted", res["accepted"])
         run.count("compilations_rejected", res["rejected"])
@@ -186,18 +199,93 @@ def check_tree(run, moddir, letters, order, golden):
         run.count("prefix_compilations_executed_in_tasks", res.get("prefix_recompilations", 0))
         run.cmax("max_history_length", res["max_depth"])
         for d in res["deviations"]:
-            devs[t["mode"]][(tuple(d["history"]), d["victim"], norm_sig(d["sig"]))] = d
+            devs[t["mode"]][(tuple(d["history"]), d["victim"], d["kind"])] = d
+    return nodes
+
+
+def check_tree(run, moddir, letters, order, golden, devs):
+    depths = tree_depths(run)
+    plen = 2 if run.thorough else 1
+    tasks = list(tree_tasks(moddir, letters, order, golden, depths, plen))
+    # largest subtrees first (better load balance)
+    tasks.sort(key=lambda t: -(depths[t["mode"]] - len(t["prefix"])))
+    got_nodes = collect(run, tasks, devs, "tree")
     # one root node (empty history) per mode
     run.count("states", len(MODES))
-    run.coverage_extra["history_depth"] = depth
+    run.coverage_extra["history_depth"] = depths
     run.coverage_extra["alphabet_size"] = len(order)
     run.coverage_extra["modes"] = list(MODES)
-    expected_nodes = len(MODES) * sum(len(order) ** k for k in range(1, depth + 1))
-    got_nodes = run.counters.get("transitions", 0)
+    expected_nodes = sum(len(order) ** k for d in depths.values() for k in range(1, d + 1))
     if got_nodes != expected_nodes and not run.tool_errors:
         run.tool_error(f"history tree incomplete: {got_nodes} nodes executed, expected {expected_nodes}")
     run.coverage_extra["exhaustive"] = got_nodes == expected_nodes
 
+
+# ---------------------------------------------------------------------------------------------
+# corpus stratum: the upstream reference designs as victims / second alphabet (depth 2)
+# ---------------------------------------------------------------------------------------------
+def corpus_letters():
+    import cohdl
+
+    tests = os.path.join(os.path.dirname(os.path.dirname(os.path.abspath(cohdl.__file__))), "tests")
+    root = os.path.join(tests, "reference_builds")
+    out = {}
+    for dp, dn, fn in sorted(os.walk(root)):
+        dn.sort()
+        for f in sorted(fn):
+            if f.startswith("test_") and f.endswith(".py"):
+                mod = os.path.relpath(os.path.join(dp, f), tests)[:-3].replace(os.sep, ".")
+                short = mod[len("reference_builds."):]
+                out["corpus:" + short] = ("@" + mod, None, "accept", "upstream reference design " + mod)
+    return out
+
+
+def check_corpus(run, moddir, letters, order, golden, devs):
+    cl = corpus_letters()
+    lim = os.environ.get("VERIF_C11_CORPUS_LIMIT")
+    if lim:  # development aid only
+        cl = dict(list(cl.items())[:: max(1, len(cl) // int(lim))][: int(lim)])
+        run.capped = True
+        run.note(f"VERIF_C11_CORPUS_LIMIT set: corpus restricted to {len(cl)} designs")
+    corder = list(cl)
+    cgold = compute_golden(run, moddir, cl, corder)
+    if len(cgold) != len(corder):
+        run.tool_error("corpus golden outcomes incomplete")
+        return
+    acc = [c for c in corder if cgold[c]["ok"]]
+    run.count("corpus_designs", len(corder))
+    run.count("corpus_designs_accepted", len(acc))
+    if len(acc) < (100 if not lim else 1):
+        run.tool_error(f"vacuous corpus: only {len(acc)} of {len(corder)} upstream designs compile in a fresh interpreter")
+        return
+    allgold = dict(golden)
+    allgold.update(cgold)
+    gfile = write_golden(moddir, allgold)
+    allletters = dict(letters)
+    allletters.update(cl)
+    tasks = []
+    # (a) every rejected letter of the alphabet followed by every accepted corpus design
+    rejected = [l for l in order if not golden[l]["ok"]]
+    for p in rejected:
+        for chunk in chunked(acc, 30):
+            spec = base_spec(moddir, allletters, [p] + chunk)
+            spec.update(order=list(chunk), mode="reuse", prefix=[p], depth=2, golden_file=gfile, count_prefix=False)
+            tasks.append({"kind": "corpus", "mode": "reuse", "prefix": [p], "spec": spec, "hashseed": TREE_HASHSEED})
+    # (b) quick: every corpus design compiled twice; thorough: every ordered pair of corpus designs
+    for x in acc:
+        succ = acc if run.thorough else [x]
+        spec = base_spec(moddir, allletters, sorted(set([x] + succ), key=corder.index))
+        spec.update(order=list(succ), mode="reuse", prefix=[x], depth=2, golden_file=gfile)
+        tasks.append({"kind": "corpus", "mode": "reuse", "prefix": [x], "spec": spec, "hashseed": TREE_HASHSEED})
+    got = collect(run, tasks, devs, "corpus")
+    expected = len(rejected) * len(acc) + len(acc) * (1 + (len(acc) if run.thorough else 1))
+    if got != expected and not run.tool_errors:
+        run.tool_error(f"corpus stratum incomplete: {got} nodes executed, expected {expected}")
+    run.coverage_extra["corpus_stratum"] = ("[rejected letter, X] for all accepted upstream designs X; "
+                                            + ("[X, Y] for all ordered pairs" if run.thorough else "[X, X]"))
+
+
+def report_minimal(run, devs):
     # ---- minimal failing histories --------------------------------------------------------
     minimal = {}  # (history, victim, sig) -> {modes, record}
     n_dev = n_expl = 0
@@ -226,7 +314,8 @@ def check_tree(run, moddir, letters, order, golden):
         what = (f"after the compilations [{', '.join(h)}] in the same interpreter the design '{v}' {eff}; "
                 f"modes={m['modes']}")
         run.violation(hist_key(h, v, sig), what,
-                      {"kind": "history", "mode": m["modes"][0], "history": list(h), "victim": v, "sig": sig})
+                      {"kind": "history", "mode": m["modes"][0], "history": list(h), "victim": v, "deviation": sig,
+                       "detail": norm_sig(d["sig"])})
 
 
 # ---------------------------------------------------------------------------------------------
@@ -264,8 +353,12 @@ def main(run: Run):
         run.assume("exhaustive up to the stated history length over the stated alphabet only")
         if only is None or "variants" in only:
             check_variants(run, moddir, letters, order, golden)
+        devs = {m: {} for m in MODES}  # mode -> {(history tuple, victim, kind): record}
         if only is None or "tree" in only:
-            check_tree(run, moddir, letters, order, golden)
+            check_tree(run, moddir, letters, order, golden, devs)
+        if (only is None or "corpus" in only) and not os.environ.get("VERIF_C11_LETTERS"):
+            check_corpus(run, moddir, letters, order, golden, devs)
+        report_minimal(run, devs)
         run.sample({"history": ["rej_seqctx", "syncflag", "coro"], "mode": "reuse",
                     "meaning": "each letter is compiled with std.VhdlCompiler.to_string in one interpreter, the last outcome is compared with the fresh-interpreter outcome"})
         run.sample({"alphabet": {l: letters[l][3] for l in order}})
@@ -278,7 +371,10 @@ def main(run: Run):
 
 # ---------------------------------------------------------------------------------------------
 def replay(run: Run, data: dict):
-    letters, order = dict(D.LETTERS), list(D.LETTERS)
+    letters = dict(D.LETTERS)
+    letters.update(corpus_letters())
+    used = [x for x in list(data.get("history", [])) + [data.get("victim"), data.get("letter")] if x]
+    order = [l for l in letters if l in D.LETTERS or l in used]
     base = "/dev/shm" if os.path.isdir("/dev/shm") else None
     moddir = tempfile.mkdtemp(prefix="verif_c11_", dir=base)
     try:
